@@ -14,10 +14,18 @@
 #include "gs_ref.h"
 #include "gs_rx.h"
 #include <algorithm>
+#include <climits>
 #include <memory>
 #include <string>
 
 using namespace gs;
+// GS_REDUCED: a second build of the same harness (units.json: -funsigned-char -DGS_REDUCED) with a reduced workload,
+// so that code whose meaning depends on the signedness of plain char (ARM / AArch64 / PowerPC ABIs) is exercised too.
+#ifdef GS_REDUCED
+#define GS_N(quick, thorough_, reduced) (reduced)
+#else
+#define GS_N(quick, thorough_, reduced) (vf::thorough() ? (thorough_) : (quick))
+#endif
 typedef std::vector<uint8_t> Bytes;
 static inline bool same(const uint8_t *a, const uint8_t *b, size_t n) { return n == 0 || memcmp(a, b, n) == 0; }
 
@@ -382,8 +390,8 @@ static const int CAPS[4] = {2, 3, 4, 8};
 static int exh_len(Codec k)
 {
     if (k == V1)
-        return vf::thorough() ? 8 : 6; // 10 symbols
-    return vf::thorough() ? 8 : 7;     // 8 symbols
+        return GS_N(6, 8, 4); // 10 symbols
+    return GS_N(7, 8, 5);     // 8 symbols
 }
 static uint64_t exh_cases_of(Codec k)
 {
@@ -446,7 +454,7 @@ static void exh_run(uint64_t idx)
 VF_SUITE(exhaustive, exh_count, exh_run)
 
 // (2) fault injection into valid traffic of 3..5 frames: every position x every fault
-static uint64_t fault_count() { return NCODEC * (vf::thorough() ? 2500 : 150); }
+static uint64_t fault_count() { return NCODEC * GS_N(150, 2500, 12); }
 static void fault_body(Codec k, vf::Rng &r, uint64_t idx)
 {
     const Alpha &a = ALPHA[k];
@@ -604,7 +612,7 @@ static void garbage_token(vf::Rng &r, Codec k, int cap, Bytes &s)
     }
     }
 }
-static uint64_t noise_count() { return NCODEC * (vf::thorough() ? 60000 : 6000); }
+static uint64_t noise_count() { return NCODEC * GS_N(6000, 60000, 500); }
 static void noise_body(Codec k, vf::Rng &r, uint64_t idx)
 {
     const Alpha &a = ALPHA[k];
@@ -632,7 +640,7 @@ static void noise_run(uint64_t idx)
 VF_SUITE(noise, noise_count, noise_run)
 
 // (4) frames around the capacity: |U| = cap-2 .. cap+2, alone, after a good frame, followed by good frames
-static uint64_t fit_count() { return NCODEC * (vf::thorough() ? 6000 : 490); }
+static uint64_t fit_count() { return NCODEC * GS_N(490, 6000, 42); }
 static void fit_body(Codec k, vf::Rng &r, uint64_t idx)
 {
     const Alpha &a = ALPHA[k];
@@ -662,7 +670,7 @@ static void fit_run(uint64_t idx)
 VF_SUITE(fit, fit_count, fit_run)
 
 // (5) the directed witnesses of DESIGN "Read/probed": START STUB x body STOP, and one delimiter of garbage before frames
-static uint64_t directed_count() { return NCODEC * (vf::thorough() ? 600 : 100); }
+static uint64_t directed_count() { return NCODEC * GS_N(100, 600, 8); }
 static void directed_body(Codec k, vf::Rng &r, uint64_t idx)
 {
     const Alpha &a = ALPHA[k];
@@ -705,7 +713,7 @@ VF_SUITE(directed, directed_count, directed_run)
 // every position of a frame (incl. between STUB and its code).  The entry points re-initialise the receiver, so the
 // shadow decoder restarts at the swap: the bytes after it are judged like a stream given to a fresh receiver with
 // the NEW capacity ((a),(b) after every byte, (c),(d) over the segment).  The old buffer is freed at the swap.
-static uint64_t handover_count() { return NCODEC * (vf::thorough() ? 1500 : 60); }
+static uint64_t handover_count() { return NCODEC * GS_N(60, 1500, 6); }
 static void handover_run(uint64_t idx)
 {
     Codec k = (Codec)(idx % NCODEC);
@@ -781,7 +789,7 @@ VF_SUITE(handover, handover_count, handover_run)
 
 // (6) receive buffers of 64 KiB and more: a frame that fits must be delivered, one that does not must overflow
 static const int BIGCAPS[] = {65535, 65536, 65537, 65600, 70000, 131072 + 5};
-static uint64_t big_count() { return NCODEC * (sizeof BIGCAPS / sizeof BIGCAPS[0]) * (vf::thorough() ? 4 : 1); }
+static uint64_t big_count() { return NCODEC * GS_N(6, 24, 1); }
 static void big_run(uint64_t idx)
 {
     Codec k = (Codec)(idx % NCODEC);
@@ -829,7 +837,7 @@ static void custom_exhaustive(int cap, int L)
     }
     vf::count_bulk(n, n - 1);
 }
-static uint64_t custom_count() { return 2 * (uint64_t)(3 * 17 + (vf::thorough() ? 400 : 20)); }
+static uint64_t custom_count() { return 2 * (uint64_t)GS_N(3 * 17 + 20, 3 * 17 + 400, 3 * 17); }
 static void custom_run(uint64_t idx)
 {
     bool shared = idx % 2;
@@ -839,7 +847,7 @@ static void custom_run(uint64_t idx)
     if (vf::verbose())
         printf("  custom alphabet START=%02x STOP=%02x STUB=%02x codes=%02x %02x %02x\n", a.START, a.STOP, a.STUB, a.C_START, a.C_STOP, a.C_STUB);
     for (int cap : CAPS)
-        custom_exhaustive(cap, 4);
+        custom_exhaustive(cap, GS_N(4, 4, 3));
     fault_body(CUSTOM, r, idx);
     for (int i = 0; i < 20; i++)
         noise_body(CUSTOM, r, idx);
@@ -877,11 +885,23 @@ static void calib_run(uint64_t)
     if ((size_t)lg_sizeof() > sizeof(Rx::lg))
         vf::fail("C05:harness:legacy-storage", "gstuff_autorecv_v1 is %d bytes", lg_sizeof());
     VF_OK("reference alphabets == shipped gstuff_context values");
+    if (CHAR_MIN == 0)
+        VF_OK("plain char is unsigned in this build");
 }
 VF_SUITE(calib, calib_count, calib_run)
 
 extern "C" void vf_setup()
 {
+#ifdef GS_REDUCED
+    for (const char *c : {"plain char is unsigned in this build", "(a) size() <= cap-1 and guards intact after the byte",
+                          "(b) NEWPACKAGE == unescape(since last start marker) minus matching CRC-8, fits", "(b) checked: v1", "(b) checked: v0",
+                          "(b) checked: legacy", "custom-alphabet: (b) checked", "(c) checked: v1", "(c) checked: v0", "(c) checked: legacy",
+                          "(d) after a non-empty prefix: v1", "(d) after a non-empty prefix: v0", "(d) after a non-empty prefix: legacy",
+                          "custom-alphabet: (d) after a non-empty prefix", "garbage ++ F1 F2 F3 stream",
+                          "buffer hand-over (setbuf/init/setbuf_v1) at one position of a frame, old buffer freed"})
+        vf::require(c);
+    return;
+#endif
     for (const char *c : {"(a) size() <= cap-1 and guards intact after the byte",
                           "(b) NEWPACKAGE == unescape(since last start marker) minus matching CRC-8, fits", "(b) checked: v1", "(b) checked: v0",
                           "(b) checked: legacy", "(c) oversized well-formed frame: OVERFLOW before its stop marker, not delivered", "(c) checked: v1",
